@@ -1,9 +1,38 @@
-(* Props/C17.v -- property C17 (statements proved so far; see DESIGN.md section 7 C17). *)
-From Coq Require Import NArith List Bool.
-From NRF Require Import Env.Radio Env.RadioFacts.
+(* Props/C17.v -- property C17 (mesh joins yield distinct working addresses; lookups give the documented codes).
+   What is proved is the sequential core the property rests on: the master's table (C16) and its
+   lookups.  The concurrent clauses (joins of 1..12 nodes under arbitrary interleavings, delivery of
+   messages sent to an ID) are NOT theorems: the node model is sequential; they are decided by the
+   concurrent runs whose every node is replayed on the model (corr/c17.py, Net/Replay.v). *)
+From Coq Require Import ZArith NArith List Bool.
+From NRF Require Import Drv.RF24 Net.Addr Net.Mesh Net.DhcpFacts.
 Import ListNotations.
-Local Open Scope N_scope.
-Theorem C17_status_is_pre_command : forall r cmd data,
-  hd 0 (snd (spi r (cmd :: data))) = status r.
-Proof. exact spi_status_first. Qed.
-Print Assumptions C17_status_is_pre_command.
+Local Open Scope Z_scope.
+
+(* whatever requests, releases and loads the master has served, two IDs never hold one address, and every
+   lease handed to a joining node is a valid child address of the node it asked through (C16's theorems) *)
+Theorem C17_leases_are_distinct : forall evs, Inj (fold_left table_step evs []).
+Proof. intro evs. exact (inj_history evs [] inj_nil). Qed.
+Print Assumptions C17_leases_are_distinct.
+
+(* lookup_address()/lookup_node_id() on the master return the current mapping, and -2 exactly when the
+   ID / address is not assigned *)
+Theorem C17_lookup_address : forall d id,
+  Inj d -> (forall a, In (id, a) d -> get_address d id true = a)
+           /\ ((forall a, ~ In (id, a) d) -> get_address d id true = -2).
+Proof. exact lookup_address_spec. Qed.
+Print Assumptions C17_lookup_address.
+Theorem C17_lookup_node_id : forall d a,
+  Inj d -> (forall id, In (id, a) d -> get_address d a false = id)
+           /\ ((forall id, ~ In (id, a) d) -> get_address d a false = -2).
+Proof. exact lookup_node_id_spec. Qed.
+Print Assumptions C17_lookup_node_id.
+
+(* a release frees the lease (and only that one) *)
+Theorem C17_release_frees_the_lease : forall d a, Inj d -> forall k, ~ In (k, a) (snd (release_addr d a)).
+Proof. exact release_frees. Qed.
+Print Assumptions C17_release_frees_the_lease.
+
+Example C17_example :
+  let d := fold_left table_step [Request 7 0 true; Request 9 0 true; Request 3 5 false] [] in
+  (get_address d 9 true, get_address d 37 false, get_address d 8 true, get_address d 3 false) = (4, 3, -2, -2).
+Proof. vm_compute. reflexivity. Qed.
